@@ -299,6 +299,12 @@ func genC16(g *genCtx) {
 		}
 		g.add(&Case{Kind: "cache", Extra: fmt.Sprintf("%d;%s", capv, strings.Join(seq, ","))})
 	}
+	// concurrent misses on distinct keys around the capacity boundary (the unlocked window between lookup and store)
+	for capv := 0; capv <= 4; capv++ {
+		for _, gor := range []int{2, 3, 5} {
+			g.add(&Case{Kind: "cachec", Extra: fmt.Sprintf("%d;%d;%d", capv, gor, g.scale(3, 10))})
+		}
+	}
 	// regex functions against Go regexp
 	atoms := []string{"a", "b", "c", ".", "[ab]", "[^a]", "\\d", "x"}
 	genRe := func() string {
